@@ -59,15 +59,27 @@ def neg(p):
 ZERO = (0, 1)
 
 
+def _eadd(p, q):
+    (X1, Y1, Z1, T1), (X2, Y2, Z2, T2) = p, q
+    A = (Y1 - X1) * (Y2 - X2) % P
+    Bq = (Y1 + X1) * (Y2 + X2) % P
+    C = T1 * 2 * D % P * T2 % P
+    Dd = 2 * Z1 * Z2 % P
+    E, F, G, Hh = Bq - A, Dd - C, Dd + C, Bq + A
+    return (E * F % P, G * Hh % P, F * G % P, E * Hh % P)
+
+
 def smul(n, p):
-    r = ZERO
-    q = p
+    """n*p via extended coordinates (complete formulas), result affine"""
+    q = (p[0], p[1], 1, p[0] * p[1] % P)
+    r = (0, 1, 1, 0)
     while n > 0:
         if n & 1:
-            r = add(r, q)
-        q = add(q, q)
+            r = _eadd(r, q)
+        q = _eadd(q, q)
         n >>= 1
-    return r
+    zi = inv(r[2])
+    return (r[0] * zi % P, r[1] * zi % P)
 
 
 def x_from_y(y, sign):
@@ -158,3 +170,121 @@ class SplitMix64:
         for c in tag.encode():
             h = ((h ^ c) * 1099511628211) & 0xFFFFFFFFFFFFFFFF
         return SplitMix64(self.s ^ h)
+
+
+# ------------------------------------------------------------------ ristretto255 (RFC 9496), generator side only
+def _is_neg(x):
+    return (x % P) & 1
+
+
+def _abs(x):
+    x %= P
+    return P - x if x & 1 else x
+
+
+def sqrt_ratio_m1(u, v):
+    u %= P; v %= P
+    v3 = v * v % P * v % P
+    v7 = v3 * v3 % P * v % P
+    r = u * v3 % P * pow(u * v7 % P, (P - 5) // 8, P) % P
+    check = v * r % P * r % P
+    correct = check == u
+    flipped = check == (-u) % P
+    flipped_i = check == (-u * SQRT_M1) % P
+    if flipped or flipped_i:
+        r = r * SQRT_M1 % P
+    return (correct or flipped), _abs(r)
+
+
+INVSQRT_A_MINUS_D = sqrt_ratio_m1(1, (-1 - D) % P)[1]
+
+
+def ris_encode(pt):
+    """encode the Edwards point (affine) as ristretto255"""
+    x0, y0 = pt
+    z0, t0 = 1, x0 * y0 % P
+    u1 = (z0 + y0) * (z0 - y0) % P
+    u2 = x0 * y0 % P
+    _, invsqrt = sqrt_ratio_m1(1, u1 * u2 % P * u2 % P)
+    den1 = invsqrt * u1 % P
+    den2 = invsqrt * u2 % P
+    z_inv = den1 * den2 % P * t0 % P
+    ix0 = x0 * SQRT_M1 % P
+    iy0 = y0 * SQRT_M1 % P
+    enchanted = den1 * INVSQRT_A_MINUS_D % P
+    rotate = _is_neg(t0 * z_inv)
+    if rotate:
+        x, y, den_inv = iy0, ix0, enchanted
+    else:
+        x, y, den_inv = x0, y0, den2
+    if _is_neg(x * z_inv):
+        y = (-y) % P
+    s = _abs(den_inv * ((z0 - y) % P))
+    return tole(s)
+
+
+def ris_decode(b):
+    s = le(b)
+    if s >= P or s & 1:
+        return None
+    ss = s * s % P
+    u1 = (1 - ss) % P
+    u2 = (1 + ss) % P
+    u2s = u2 * u2 % P
+    v = (-(D * u1 % P * u1) - u2s) % P
+    ok, invsqrt = sqrt_ratio_m1(1, v * u2s % P)
+    dx = invsqrt * u2 % P
+    dy = invsqrt * dx % P * v % P
+    x = _abs(2 * s * dx)
+    y = u1 * dy % P
+    t = x * y % P
+    if not ok or _is_neg(t) or y == 0:
+        return None
+    return (x, y)
+
+
+# ------------------------------------------------------------------ Ed25519 (generator side: honest signatures to corrupt)
+import hashlib
+
+
+def sha512(b):
+    return hashlib.sha512(b).digest()
+
+
+def ed_expand(seed):
+    h = sha512(seed)
+    a = le(h[:32])
+    a &= (1 << 254) - 8
+    a |= 1 << 254
+    return a, h[32:]
+
+
+def ed_pub(seed):
+    a, _ = ed_expand(seed)
+    return compress(smul(a % L, B))
+
+
+def dom2(f, ctx):
+    return b"SigEd25519 no Ed25519 collisions" + bytes([f, len(ctx)]) + ctx
+
+
+def ed_sign(seed, msg, ph_ctx=None):
+    a, prefix = ed_expand(seed)
+    A = ed_pub(seed)
+    dom = b""
+    if ph_ctx is not None:
+        dom = dom2(1, ph_ctx)
+        msg = sha512(msg)
+    r = le(sha512(dom + prefix + msg)) % L
+    R = compress(smul(r, B))
+    k = le(sha512(dom + R + A + msg)) % L
+    S = (r + k * a) % L
+    return R + tole(S)
+
+
+def ed_challenge(R, A, msg, ph_ctx=None):
+    dom = b""
+    if ph_ctx is not None:
+        dom = dom2(1, ph_ctx)
+        msg = sha512(msg)
+    return le(sha512(dom + R + A + msg)) % L
